@@ -50,13 +50,14 @@ func Boundary(k Kind) []V {
 		return []V{protoreflect.ValueOfBool(false), protoreflect.ValueOfBool(true)}
 	case Float:
 		var out []V
-		for _, x := range []float32{0, float32(math.Copysign(0, -1)), 1, -1.5, 0.1, 16777216, 16777217, 1e10, 1e-7, 1e21, math.MaxFloat32, math.SmallestNonzeroFloat32, float32(math.NaN()), float32(math.Inf(1)), float32(math.Inf(-1))} {
+		for _, x := range []float32{0, float32(math.Copysign(0, -1)), 1, -1.5, 0.1, 16777216, 16777217, 1e10, 1e-7, 1e21, 2147483648, 4294967296, 9223372036854775808, -9223372036854775808, 1.8446744073709552e19, math.MaxFloat32, math.SmallestNonzeroFloat32, float32(math.NaN()), float32(math.Inf(1)), float32(math.Inf(-1))} {
 			out = append(out, f32(x))
 		}
 		return out
 	case Double:
 		var out []V
-		for _, x := range []float64{0, math.Copysign(0, -1), 1, -1.5, 0.1, 1<<53 + 2, 1e21, 1e20, 1e-7, 1e-6, 5e-324, math.MaxFloat64, 123456789.12345678, math.NaN(), math.Inf(1), math.Inf(-1)} {
+		for _, x := range []float64{0, math.Copysign(0, -1), 1, -1.5, 0.1, 1<<53 + 2, 1e21, 1e20, 1e-7, 1e-6, 5e-324, math.MaxFloat64, 123456789.12345678, math.NaN(), math.Inf(1), math.Inf(-1),
+			1 << 31, 1 << 32, 1 << 63, -(1 << 63), 9223372036854774784, 9223372036854777856, 1 << 64, 1e19, -1e19} {
 			out = append(out, f64(x))
 		}
 		return out
